@@ -257,6 +257,15 @@ func (engine) Generate(r *lib.Rng, tier string, i int) any {
 		if len(secs) > 0 {
 			x := secs[r.Intn(len(secs))]
 			c.Forest[x.gi].Nodes[x.ni].Fail = x.fail
+			// a fault of the other kind: the user function panics after its update. eino contains the
+			// panic of a ProcessState callback (the executor of the lambda recovers) and of a handler of
+			// a nested graph (the executor of the enclosing node recovers): the run fails with an error;
+			// a handler of the top graph runs on the caller's goroutine, its panic reaches the caller
+			// (the harness recovers it; for C11 the run has failed either way). In every case the lock
+			// must be free afterwards: the nodes left behind still get the state
+			if r.Chance(1, 2) {
+				c.Forest[x.gi].Nodes[x.ni].FailPanic = true
+			}
 			// a fault while siblings are running: half of these cases run the graph again right
 			// after the failed run (sequentially), with the siblings of the failing node slowed
 			// down - a run that returns on the first error (eager mode) leaves nodes behind that
